@@ -126,7 +126,34 @@ def rec_spec(rng):
     return gram.Spec(classes, 0, considered)
 
 
-def one(h: Harness, spec, limit, b=None, superset=None):
+def all_reachable_and_productive(spec, g, b) -> bool:
+    """every class of the spec can be reached from the start symbol (through alternatives and field types) and has a finite minimum
+    depth in the grammar as extracted: the usable sub-grammar is then the grammar itself"""
+    if any(g.distanceToTerminal[s] >= 1000000 for s in g.all_nodes):
+        return False
+    kids = {i: [j for j, c in enumerate(spec.classes) if c.parent == i and (c.abstract or j in spec.considered)] for i in range(len(spec.classes))}
+
+    def mentioned(t, out):
+        if isinstance(t, tuple):
+            if t[0] == "cls":
+                out.add(t[1])
+            for x in t[1:]:
+                mentioned(x, out)
+    seen, todo = set(), [spec.start]
+    while todo:
+        i = todo.pop()
+        if i in seen:
+            continue
+        seen.add(i)
+        todo += kids[i]
+        m = set()
+        for _, ft in spec.classes[i].fields:
+            mentioned(ft, m)
+        todo += list(m)
+    return all(i in seen for i in range(len(spec.classes)) if spec.classes[i].abstract or i in spec.considered)
+
+
+def one(h: Harness, spec, limit, b=None, superset=None, via_usable=False):
     b = b if b is not None else gram.build(spec)
     try:
         g = b.extract()
@@ -135,6 +162,23 @@ def one(h: Harness, spec, limit, b=None, superset=None):
     mind = g.get_min_tree_depth()
     if mind >= 1000000:
         return
+    if via_usable:
+        # programs are created from `g.usable_grammar()` (the reachable, productive part -- here: all of it): same language
+        if superset is not None or not all_reachable_and_productive(spec, g, b):
+            return
+        import warnings
+        with warnings.catch_warnings():
+            warnings.simplefilter("ignore")
+            try:
+                g = g.usable_grammar()
+            except Exception as e:  # noqa: BLE001
+                h.fail("Grammar.usable_grammar", "raises", f"usable_grammar() raised {type(e).__name__} on {sx(gram.spec_sx(spec))[:200]}", [sx(gram.spec_sx(spec))])
+                return
+        h.count("languages-of-usable-grammars")
+        if g.get_min_tree_depth() != mind:
+            h.fail("Grammar.usable_grammar", "valid-program-unreachable", f"every class of the grammar is reachable and productive, yet its usable grammar has minimum "
+                   f"depth {g.get_min_tree_depth()} instead of {mind}: {sx(gram.spec_sx(spec))[:200]}", [sx(gram.spec_sx(spec))])
+            return
     line_spec = gram.spec_sx(spec)
     # other grammars over the same classes come into being before this one is used (a subset of the productions, the
     # usable sub-grammar): what is creatable from THIS grammar must not move
@@ -427,14 +471,56 @@ def failing_productions_stay_inside(h: Harness):
                             [sx(line_spec), d, p])
 
 
+def weighted_string_positions(h: Harness):
+    """a refinement with parameters of its own (a WeightedStringHandler whose matrix has an all-zero row and a row below the chooser's
+    resolution): what the deciders create stays inside the language the refinement describes -- one letter per row, from the alphabet"""
+    import wsgrammar
+    from geneticengine.random.sources import NativeRandomSource
+    g = wsgrammar.grammar()
+    nrows = len(wsgrammar.MATRIX)
+    rng = h.rng
+    for kind in ("grow", "pigrow", "full"):
+        for d in (1, 2, 3):
+            for trial in range(h.n(12, 80)):
+                r = NativeRandomSource(rng.randrange(10**6))
+                try:
+                    p = TreeBasedRepresentation(g, synth.make_decider(kind, d, r, g)).create_genotype(r)
+                except Exception:  # noqa: BLE001
+                    continue
+                h.count("weighted-string-programs")
+                todo = [p]
+                while todo:
+                    x = todo.pop()
+                    if isinstance(x, wsgrammar.Join):
+                        todo += [x.l, x.r]
+                        continue
+                    h.seen(f"ws-lang:{kind}:{d}:{x.s}", nontrivial=True)
+                    if not (isinstance(x.s, str) and len(x.s) == nrows and all(ch in "ACGT" for ch in x.s)):
+                        h.fail(f"create_genotype[{kind}]", "reachable-program-outside-bounded-language",
+                               f"{kind} at depth {d} produced Seq(s={x.s!r}): the string violates its refinement (the matrix has {nrows} positions over ACGT)",
+                               ["weighted-string", kind, d, x.s])
+                        todo = []
+                        break
+
+
 def run(h: Harness):
     rng = h.rng
     limit = h.n(1500, 8000)
     retargeted(h, limit)
     mirror_languages(h, limit)
     failing_productions_stay_inside(h)
+    weighted_string_positions(h)
     for spec in corpus():
         one(h, spec, limit)
+    # nested abstract layers that no field mentions (an abstract alternative of an abstract type), created from the USABLE grammar
+    C = gram.ClassSpec
+    r01 = ("ann", "int", ("intRange", 0, 1))
+    nested = [gram.Spec([C("Expr", True, None), C("Atom", True, 0), C("Lit", False, 1, [("v", r01)]), C("Flag", False, 1, [("b", "bool")]),
+                         C("Neg", False, 0, [("e", ("cls", 0))])], 0, [2, 3, 4, 1]),
+              gram.Spec([C("Expr", True, None), C("Atom", True, 0), C("Deep", True, 1), C("Lit", False, 2, [("v", r01)]), C("One", False, 1, []),
+                         C("Add", False, 0, [("l", ("cls", 0)), ("r", ("cls", 0))])], 0, [3, 4, 5, 1, 2])]
+    for spec in nested + corpus()[:6]:
+        one(h, spec, limit, via_usable=True)
     # each corpus grammar once more WITHOUT one of its productions, while the full grammar exists beside it
     import copy
     for spec in corpus():
